@@ -32,46 +32,99 @@ def run(ctx):
     c12 = _c12()
     status = vlib.proof_status(PID, extra_targets=["C12/Extract.v"])
     ctx.proof_gate(status)
-    drv = vlib.build_ocaml_driver("c12_driver", os.path.join(vlib.COQ, "extracted"),
-                                  os.path.join(C12, "driver", "c12_driver.ml"), only=["c12_model"])
+    drv = c12.build_driver()
     exe, blog = c12.build_harness(ctx)
     if exe is None:
         ctx.violation("harness-build-failed", "Go harness does not build against the repository: " + blog[-800:],
                       {"log": blog[-3000:]}, found_input=False)
         ctx.coverage.update({"evaluations": 0})
         return
-    out = os.path.join(ctx.scratch, "c13_cases.txt")
+    quick = ctx.tier == "quick"
     env = vlib.goenv()
-    ncases = 2400 if ctx.tier == "quick" else 100000
-    env.update({"VERIF_SEED": str(ctx.seed), "VERIF_CASES": str(ncases)})
+    ncases = 2400 if quick else 250000
+    env.update({"VERIF_SEED": str(ctx.seed), "VERIF_CASES": str(ncases), "VERIF_WATCHDOG_S": "10" if quick else "20",
+                "VERIF_DRIVER_BUDGET_S": "30" if quick else "1200"})
     if ctx.replay:
         r = json.load(open(ctx.replay))
         inp = (r.get("replay") or {}).get("input")
         if inp:
             env["VERIF_REPLAY"] = inp
-    rc, log = vlib.sh([exe, "c13", out], env=env, timeout=3400)
-    if rc != 0 or not os.path.exists(out + ".summary"):
-        # the process died (unrecoverable fatal error / kill): the last logged input is the culprit
+    # The harness is a memory-limited child with a wall-clock budget.  An input that brings the child down
+    # (unrecoverable Go fatal error such as out of memory, or a kill by the timeout) was logged before the call:
+    # it is reported, and a new child resumes right after it.
+    import time
+    t_start = time.time()
+    total_budget = 75 if quick else 1500
+    parts, outs, deaths, log = [], [], 0, ""
+    skip_until = None
+    while True:
+        left = total_budget - (time.time() - t_start)
+        if left < 3 or deaths > 12:
+            break
+        out = os.path.join(ctx.scratch, "c13_cases_%d.txt" % len(outs))
+        outs.append(out)
+        env["VERIF_BUDGET_S"] = str(int(left))
+        if skip_until:
+            env["VERIF_SKIP_UNTIL"] = skip_until
+        rc, log = c12.run_limited([exe, "c13", out], env=env, timeout=int(left) + 25)
+        if rc == 0 and os.path.exists(out + ".summary"):
+            parts.append(c12.parse_summary(out + ".summary"))
+            break
+        # the child died
+        deaths += 1
+        if os.path.exists(out + ".partial"):
+            parts.append(c12.parse_summary(out + ".partial"))
         last = ""
         if os.path.exists(out + ".progress"):
-            lines = open(out + ".progress").read().strip().split("\n")
-            last = lines[-1] if lines else ""
-        m = re.search(r"fatal error: .*|panic: .*|signal: .*", log)
-        parts = last.split(" ", 2)
-        ctx.violation("c13-process-died", "LoadNetwork brought the process down (%s) on input %s" % (m.group(0) if m else "rc=%d" % rc, last[:200]),
-                      {"input": " ".join(parts[1:]) if len(parts) == 3 else "", "log": log[-2000:]}, found_input=bool(last))
+            last = open(out + ".progress", errors="replace").read().strip()
+        f = last.split(" ", 3)
+        if len(f) < 3:
+            ctx.violation("impl-run-failed", "harness died before the first input (rc=%s): %s" % (rc, log[-600:]),
+                          {"log": log[-3000:]}, found_input=False)
+            break
+        cid, enc, hexdata = f[0], f[1], f[2]
+        descr = f[3] if len(f) > 3 else ""
+        m = re.search(r"fatal error: [^\n]*", log)
+        why = m.group(0) if m else ("killed by the watchdog" if rc == 124 else "rc=%s" % rc)
+        site = "unknown"
+        for fr in re.findall(r"github\.com/squadracorsepolito/acmelib\.([\w.()*]+)\(", log):
+            if not fr.startswith("LoadNetwork"):
+                site = fr
+                break
+        kind = "out-of-memory" if "out of memory" in why or "cannot allocate" in why else ("timeout" if rc == 124 else "fatal")
+        ctx.violation("c13-fatal@%s:%s" % (site, kind),
+                      "LoadNetwork(%s) brings the process down (%s, memory limit %d GiB) in %s; input (%d bytes): %s" %
+                      (enc, why, c12.MEM_LIMIT >> 30, site, len(hexdata) // 2, descr[:300]),
+                      {"input": "%s %s" % (enc, hexdata), "format": "<encoding> <hex bytes>", "how": "./check C13 --replay <this file>",
+                       "detail": descr, "log_tail": log[-1500:]})
+        if ctx.replay:
+            break
+        skip_until = "%s %s" % (cid, enc)
+    if not parts:
         ctx.coverage.update({"evaluations": 0})
+        if not ctx.violations and not ctx.known_hits:
+            ctx.violation("impl-run-failed", "harness produced no summary: " + log[-600:], {"log": log[-3000:]}, found_input=False)
         return
-    summ = c12.parse_summary(out + ".summary")
+    summ = c12.merge_summaries(parts)
+    summ["hist"]["harness-children-killed-and-resumed"] = deaths
     for sig, replay, desc in summ["fails"]:
         ctx.violation(sig, "C13 fails on the implementation: " + desc[:700],
                       {"input": replay, "format": "<encoding> <hex bytes>", "how": "./check C13 --replay <this file>", "detail": desc})
-    rc2, mlog = vlib.sh([drv, out], timeout=3400)
+    allcases = os.path.join(ctx.scratch, "c13_all_cases.txt")
+    with open(allcases, "wb") as fo:
+        for o in outs:
+            if os.path.exists(o):
+                data = open(o, "rb").read()
+                fo.write(data if data.endswith(b"\n") or not data else data + b"\n")
+    rc2, mlog = c12.run_limited([drv, allcases], env=env, timeout=70 if quick else 3000)
     m = re.search(r"CHECKS (\d+) MISMATCHES (\d+) WFFAIL (\d+)", mlog)
     checks, mism, wff = (int(m.group(1)), int(m.group(2)), int(m.group(3))) if m else (0, -1, -1)
     m2 = re.search(r"LOADS ok (\d+) err (\d+)", mlog)
     m3 = re.search(r"WFSKIP (\d+)", mlog)
     m4 = re.search(r"MODELSKIP (\d+)", mlog)
+    if checks <= 0 and not ctx.replay:
+        ctx.violation("c13-no-model-checks", "the model side of the check did not run (driver rc=%s): %s" % (rc2, mlog[-600:]),
+                      {"driver_output": mlog[-3000:]}, found_input=False)
     known_sigs = {k["signature"] for k in ctx.known_open}
     new_fails = [f for f in summ["fails"] if f[0] not in known_sigs]
     if (mism != 0 or wff != 0) and not new_fails:
@@ -82,6 +135,7 @@ def run(ctx):
     if ctx.replay:
         print(log[-1500:])
         print(mlog[-3000:])
+    ctx.coverage["budget_exhausted"] = bool(summ["hist"].get("budget-exhausted")) or "BUDGET exhausted" in mlog
     hist = summ["hist"]
     ctx.coverage.update({
         "evaluations": summ.get("evaluations", 0),
@@ -113,7 +167,7 @@ def run(ctx):
         ],
     })
     ctx.assumptions = [
-        "group_count and interface_count <= 65536: the loader allocates one layout / interface per unit eagerly (inputs above the bound are skipped and counted under 'skipped-count-above-2^16')",
+        "every child runs under RLIMIT_AS = 4 GiB, a per-input watchdog and a wall-clock budget; an input that kills the child is a violation (c13-fatal@<site>:<kind>)",
         "which of several failing checks is reported (Go map iteration order) is not compared, only error vs success and the loaded network",
         "inputs whose flattened multiplexer tree exceeds 6000 signals (group count x fixed members) are judged on the Go side only: the list based model is quadratic there (count in coverage.model_skipped_above_cost_bound)",
     ]
